@@ -74,7 +74,7 @@ class C11(E1Check):
         return super().configs() + extra
 
     def budget(self):
-        return 600 if self.tier == "quick" else 2400
+        return 600 if self.tier == "quick" else 1200
 
     def op_list(self, cfg):
         return std_ops(self.alpha, cfg, self.tier) + self.faults
